@@ -240,9 +240,9 @@ type (
 
 func (t *TerminalParamDetails) parse(count uint8, body []byte) error {
 	index := 0
-	if len(t.OtherContent) == 0 {
-		t.OtherContent = make(map[uint32]ParamContent[[]byte])
-	}
+	// 复用同一个对象解析时 上一次报文的参数不能保留 (只保留自定义的回调)
+	*t = TerminalParamDetails{ParamParseBeforeFunc: t.ParamParseBeforeFunc}
+	t.OtherContent = make(map[uint32]ParamContent[[]byte])
 	for index < len(body) {
 		if index+5 > len(body) {
 			return protocol.ErrBodyLengthInconsistency
